@@ -41,8 +41,17 @@ CHECKS = {
    technique='deterministic simulation: scripted stream socket + discrete-event clock, seeded delivery/timeout/partial-send schedules, reference stream model, ddmin replay',
    text='Seeded search over byte streams, their composition into deliveries, timeout placements, kernel recv/send split scripts, recvsize/maxsize settings and call programs, executed against the real BufferedSocket/NetstringSocket over a simulated socket and clock; after every call (including every call that raised) the result is compared with an independent whole-stream model and byte conservation (returned + buffered + undelivered == stream; peer + kernel + send buffer == handed over) is checked; bounded liveness after faults stop. A fixed floor enumerates every composition of four short delimiter-rich streams. Sampling, not proof.',
    note='Trusts the SimSocket contract (never more than asked, b"" only after close, EWOULDBLOCK at timeout 0, send accepts 1..n bytes), sizes >= 1, and the reference model in checks/c12.py; 16 seeded mutants of socketutils are detected in the quick tier (DESIGN 4.5).'),
+
+ 'C15': dict(engine='simrand', category='exploration', design_ref='4.7',
+   technique='deterministic simulation of the PRNG seam: iterutils.random replaced by a scripted source (extreme, tiny and seeded draws), seeded parameter search, exact-rational jitter bounds against a reference loop',
+   text='Thin claim. The jitter clause quantifies over draws of the global PRNG; the simulator owns that source and presents 0.0 and 1-2**-53 next to ordinary draws. The other clauses (first value, growth, cap, monotonicity, length, default count reaching stop, ValueError before the first value, list form == generator form) are checked on the same seeded parameter sets biased to exact powers, their floating-point neighbours, start=0 and stop<1; they do not depend on any seam and the evidence labels them as configuration sampling.',
+   note='Growth is compared with a 1e-12 relative tolerance, everything else exactly; factor == 1 only with an explicit count. Found and fixed C15-F1 and C15-F2 (known_findings.json); 9 seeded mutants detected, an inclusive-bound mutant correctly not flagged.'),
+ 'C18': dict(engine='simfs', category='exploration', design_ref='4.6',
+   technique='deterministic simulation of the rollover/write-back seam: replicas of one seeded history run in lock-step over simulated temporary files (seeded max_size, scheduler-injected rollover()/fileno(), seeded write-back size, READ_CHUNK_SIZE knob) against the io.BytesIO/io.StringIO reference',
+   text='Thin claim. The instant at which a spooled object moves to a temporary file and how much of that file sits in a user-space buffer when os.fstat or a later read looks at it are not caller-visible; the simulator owns both (ioutils.TemporaryFile and ioutils.os are rebound to simfs). Each history of appending writes, reads, line reads, iteration, seeks, tell, getvalue and len is applied to up to four replicas and the io reference; every return value and tell() must agree at every step, content and position at the end. MultiFileReader: seeded partitions of a content into io/spooled/rolled members, mixes of read(n)/read()/seek(0) against the concatenation. No faults are injected (none are in C18).',
+   note='write() return values are compared between replicas only. Found and fixed C18-F1..F4 (known_findings.json); 11 seeded mutants detected, two benign ones (>= vs > rollover threshold, readline(0)) correctly not flagged.'),
 }
-PENDING = {k: 'claimed by DESIGN.md but its check is not built yet in this commit (engine under construction); listed here only until the check lands' for k in ['C15','C18']}
+PENDING = {}
 
 def main():
     checks = []
